@@ -97,10 +97,11 @@ var checks = map[string]*check{
 		Rule: "every failing start cause of the C01 line/shape alphabet (each field invalid in turn, silence until timeout, partial line, exit before output, EOF without newline, oversize line) x 72 client configurations through the real Client.Start with a scripted runner: " +
 			"on error the runner was killed by the time Start returned, a later Kill returns within 3 s virtual and removes the plugin-dir* directory; non-trivial = the case fails to start",
 		Assumptions: []string{
-			"custom-runner launch (RunnerFunc); pid-level liveness for Cmd launches is covered by the E3 part",
+			"explorer part: custom-runner launch (RunnerFunc) with a scripted process; real-process part: 13 failure causes (bad fields, multi-line output with a bad first line, silence, partial line, exit before output, stdout closed while alive, multiplexing not advertised) x {command, custom runner}: 1.5 s after Start returned its error the pid is gone, after Kill no temporary file remains",
 		},
 		Parts: []part{
 			{Name: "failing-starts", Kind: "explore", Scen: "start_line", Inst: inst("fail-quick", "fail-thorough"), BatchN: 400, Depths: depths([]int{0}, []int{0}), Budget: budget(5*time.Minute, 40*time.Minute)},
+			{Name: "real-processes", Kind: "enum", Bin: "e3.test", Test: "TestC05Proc"},
 		},
 	},
 	"C02": {
@@ -151,13 +152,14 @@ var checks = map[string]*check{
 		Rule: "plugin shutdown behaviour {exits at once, after 1 s, after 1.9 s, ignores the request, frozen (SIGSTOP model), already crashed, never completed the handshake, busy in a call, busy and ignoring} x protocol {net/rpc, gRPC, gRPC+mux} x call pattern {Kill, Kill;Kill, 2 and 3 concurrent Kills, CleanupClients over 3 managed clients in mixed states}, " +
 			"the real Client/RPCClient/GRPCClient against a real RPCServer/GRPCServer in a scripted process, under every schedule / timer order / select choice with <= d deviations; non-trivial = >= 2 alternatives at some decision point",
 		Assumptions: []string{
-			"process = scripted runner in its own failure domain: exit closes its descriptors, freeze stops its goroutines and its reads (real-process cells: E3 part, planned)",
+			"explorer parts: process = scripted runner in its own failure domain (exit closes its descriptors, freeze stops its goroutines and its reads); real-process part: 32 cells {exits at once, after 1 s, ignores the request for 60 s, SIGSTOP, SIGKILLed before Kill, silent until the start timeout} x {net/rpc, gRPC} x {command, custom runner, reattach}: pid gone and reaped, deferred-cleanup marker, Kill within 30 s (60 s frozen)",
 			"bounded-latency and graceful-clause verdicts only without TIME deviation; 'returns', 'process gone', 'Exited()' and no-panic verdicts in every execution",
 			"frozen plugin: bound 45 s (yamux keep-alive 30 s + 10 s, or the 2 s shutdown deadline + 2 s grace)",
 		},
 		Parts: []part{
 			{Name: "sequential", Kind: "explore", Scen: "kill_plugin", Inst: inst("seq", "seq"), Depths: depths([]int{2}, []int{2, 3}), Budget: budget(3*time.Minute, 20*time.Minute)},
 			{Name: "concurrent", Kind: "explore", Scen: "kill_plugin", Inst: inst("conc", "conc-thorough"), Depths: depths([]int{2}, []int{2, 3}), Budget: budget(3*time.Minute, 20*time.Minute)},
+			{Name: "real-processes", Kind: "enum", Bin: "e3.test", Test: "TestC04Proc"},
 		},
 	},
 	"C03": {
